@@ -306,6 +306,20 @@ def roles(sx, cname):
                 sx.check(getattr(m2.roles[rname], f) is True, "boolean-role-feature-preserved", info=dict(cls=cname, role=rname, feature=f))
             except Exception as e:  # noqa
                 sx.fail("valid-role-feature-rejected", info=dict(cls=cname, role=rname, feature=f, exc=repr(e)[:100]))
+    # feature NAMES are peer-controlled too: unknown names, and names that collide with parameter / attribute names of the role classes
+    for rname in mine:
+        for fname in ("zzz_unknown", "self", "kwargs", "ROLE", "_private", "__class__", "args", ""):
+            for val in (True, 5):
+                wire = [dict(x) if isinstance(x, dict) else x for x in base]
+                wire[dp] = dict(wire[dp])
+                wire[dp]["roles"] = {rname: {"features": {fname: val}}}
+                try:
+                    m2 = cls.parse(wire)
+                    m2.marshal()
+                except (ProtocolError, InvalidUriError):
+                    pass
+                except Exception as e:  # noqa
+                    sx.fail("parse-raises-something-else-than-a-protocol-level-error", info=dict(cls=cname, role=rname, feature_name=fname, value=val, exc=repr(e)[:100]))
     for badroles in ({"nosuchrole": {}}, {}, {mine[0]: 5}, {mine[0]: {"features": 5}}, [mine[0]], None):
         wire = [dict(x) if isinstance(x, dict) else x for x in base]
         wire[dp] = dict(wire[dp])
